@@ -116,7 +116,7 @@ def make_scenarios(ctx, uni, rng, n, thorough):
 
 
 def validate(ctx, tfile, dev, name):
-    ok, r = ctx.validate_trace("Trace_Compaction", "Trace_Compaction", tfile, dev=dev, name=name, timeout=1500)
+    ok, r = ctx.validate_trace("Trace_Compaction", "Trace_Compaction", tfile, dev=dev, name=name, timeout=5000, heap="6g")
     if not ok:
         raise vlib.Inconclusive("trace validation run %s did not complete: %s %s" % (name, r.violated, (r.error or "")[:500]))
     acc = set()
@@ -185,8 +185,8 @@ def run(ctx):
         scs = [rp["scenario"]]
         scs[0]["id"] = 1
     else:
-        scs = make_scenarios(ctx, uni, rng, 260 if thorough else 36, thorough)
-    nchunks = min(4 if thorough else 1, len(scs))
+        scs = make_scenarios(ctx, uni, rng, 260 if thorough else 30, thorough)
+    nchunks = min(4 if thorough else 2, len(scs))
     chunks = [scs[i::nchunks] for i in range(nchunks)]
     byid = {s["id"]: s for s in scs}
 
@@ -203,11 +203,6 @@ def run(ctx):
             for ln in open(rf):
                 o = json.loads(ln)
                 results[o["id"]] = o
-            lines_total[0] += sum(1 for _ in open(tf))
-            acc = validate(ctx, tf, "", "trace-strict-%d" % ci)
-            strict_ok.update(acc)
-            if len(acc) < len(chunks[ci]):
-                asbuilt_ok.update(validate(ctx, tf, DEV, "trace-asbuilt-%d" % ci))
         except BaseException as ex:
             errs.append(ex)
 
@@ -218,6 +213,16 @@ def run(ctx):
         t.join()
     for ex in errs:
         raise ex
+    # one trace file (scenario ids are global), one JVM per validation
+    alltrace = os.path.join(ctx.work, "trace-all.ndjson")
+    with open(alltrace, "w") as out:
+        for ci in range(nchunks):
+            for ln in open(os.path.join(ctx.work, "chunk-%d" % ci, "trace.ndjson")):
+                out.write(ln)
+                lines_total[0] += 1
+    strict_ok.update(validate(ctx, alltrace, "", "trace-strict"))
+    if len(strict_ok) < len(scs):
+        asbuilt_ok.update(validate(ctx, alltrace, DEV, "trace-asbuilt"))
     if set(results) != set(byid):
         raise vlib.Inconclusive("driver returned results for %d of %d scenarios" % (len(results), len(byid)))
 
@@ -257,9 +262,8 @@ def run(ctx):
 
     # 3. binding self-test: a falsified observation / a dropped step must be rejected
     if thorough and not ctx.replay and strict_ok:
-        for ci in range(nchunks):
-            tf = os.path.join(ctx.work, "chunk-%d" % ci, "trace.ndjson")
-            parts = split_trace(tf)
+        for ci in range(1):
+            parts = split_trace(alltrace)
             cand = [sid for sid in parts if sid in strict_ok and any('"ev":"write"' in l for l in parts[sid])
                     and any('"ev":"end"' in l and '"after":[[' in l for l in parts[sid])]
             if not cand:
